@@ -12,6 +12,7 @@ func init() {
 				j("VerifTrieSet", "3", "2", "2", "ab"),
 				j("VerifTrieSet", "2", "2", "2", "edge"),
 				j("VerifTrieSet", "1", "3", "3", "ab"),
+				j("VerifTrieSet", "2", "3", "3", "ab"),
 			}
 			if tier == "thorough" {
 				jobs = append(jobs,
@@ -24,7 +25,7 @@ func init() {
 		},
 		Budget:  map[string]time.Duration{"quick": 4 * time.Minute, "thorough": 40 * time.Minute},
 		Reach:   []string{"non-empty prefix result", "several completions"},
-		Bounds:  map[string]interface{}{"words": "<=3 inserted words (4 thorough), each of length 0..2 (3 thorough), every insertion order", "alphabets": "{a,b} and {a,0x00,0xff} (bytes symbolic under an alphabet assumption)", "query": "length 0..3"},
+		Bounds:  map[string]interface{}{"words": "<=3 inserted words of length 0..2 and 2 words of length 0..3 (thorough: 3 words of length 0..3, 4 of length 0..2), every insertion order", "alphabets": "{a,b} and {a,0x00,0xff} (bytes symbolic under an alphabet assumption)", "query": "length 0..3"},
 		Outside: []string{"words longer than 3 bytes, more than 4 words, bytes outside the two alphabets (each symbolic byte forks once per alphabet member in children[char])"},
 	})
 }
